@@ -101,6 +101,9 @@ func (r *resolver) module(y *Module) error {
 				if err != nil {
 					return fmt.Errorf("%s - %s", i.moduleName, err)
 				}
+				// known by the name it was imported as too, the module may state another
+				// name and would be loaded again each time it is imported
+				r.loadedModules[i.moduleName] = i.module
 				// recurse
 				if err = r.module(i.module); err != nil {
 					return err
